@@ -192,6 +192,9 @@ def jobs(tier, seed):
     m3 = opx.Machine(menu=TREES_MENU, njob=3, targets_menu=((),), fs_events=False, exits=["ok"])
     for root in opx.split_frontier(m3, [("start", ())], 3):
         out.append({"part": "recycle", "menu": "trees", "root": root, "depth": depth - 2})
+    m4 = opx.Machine(menu=TREES3_MENU, njob=3, targets_menu=((),), fs_events=False, exits=["ok"])
+    for root in opx.split_frontier(m4, TREES3_ROOT, 2):
+        out.append({"part": "recycle", "menu": "trees3", "root": root, "depth": 4 if tier == "quick" else 6})
     m2 = opx.Machine(menu=SUBS_MENU, njob=3, targets_menu=((),), fs_events=False, exits=["ok"], allow_kill=False)
     for root in opx.split_frontier(m2, [("start", ())], 1):
         out.append({"part": "recycle", "menu": "subs", "root": root, "depth": 3 if tier == "quick" else 4})
@@ -364,7 +367,12 @@ SUBS_MENU = [("register_glob", "$job", "${*n}", {"n": "[a]"}, "$glob"),
 # a step that declares a static tree, another step with an output under that tree: the tree
 # comes back with its recycled declarer after the output was declared (and the other way round)
 TREES_MENU = [opx.step_req("s1", [], ["b"]), opx.MENU_STEPS[5], opx.MENU_STATIC[4]]
-MENUS = {"subs": SUBS_MENU, "trees": TREES_MENU}
+# the same with the tree two creator levels below the step that is recycled: the search starts
+# from the state in which s1 has defined s2 and s2 has declared the tree
+TREES3_MENU = [opx.step_req("s1", [], ["b"]), opx.step_req("s2", [], ["c"]), opx.MENU_STEPS[5], opx.MENU_STATIC[4]]
+TREES3_ROOT = [("start", ()), ("req", "./plan.py", TREES3_MENU[0]), ("req", "s1", TREES3_MENU[1]),
+               ("req", "s2", TREES3_MENU[3])]
+MENUS = {"subs": SUBS_MENU, "trees": TREES_MENU, "trees3": TREES3_MENU}
 
 
 def run_recycle(spec, acc):
